@@ -1287,6 +1287,18 @@ def translate() -> tuple[str, dict]:
     names, node = want['ANGLES']
     if ast.unparse(node.body[0]) != 'return str(Angle.from_str(value) @ self.orient)':
         raise TranslateError('fixup_key: ANGLES branch not recognised')
+    # name-typed keyvalues (type.is_ent_name, TARG_DEST_CLASS when not a classname): the value goes through fixup_name, whole
+    name_br = [nd for nms, nd in branches if '<is_ent_name>' in nms]
+    cls_br = [nd for nms, nd in branches if 'TARG_DEST_CLASS' in nms]
+    renames = len(name_br) == 1 and [ast.unparse(x) for x in name_br[0].body] == ['return self.fixup_name(value)']
+    cls_ok = len(cls_br) == 1 and len(cls_br[0].body) == 1 and isinstance(cls_br[0].body[0], ast.If) and \
+        ast.unparse(cls_br[0].body[0].test) == 'value.casefold() not in classnames' and \
+        [ast.unparse(x) for x in cls_br[0].body[0].body] == ['return self.fixup_name(value)'] and not cls_br[0].body[0].orelse
+    tail = _body(fk)[-1]
+    falls_through = isinstance(tail, ast.Return) and ast.unparse(tail) == 'return value'
+    E.lines.append(f'Definition g_fixup_key_name_types_renamed : bool := {"true" if renames and cls_ok else "false"}.')
+    E.lines.append(f'Definition g_fixup_key_other_types_unchanged : bool := {"true" if falls_through else "false"}.')
+    side['fixup_key_name_branch'] = {'renames': renames, 'classname_guard': cls_ok, 'falls_through': falls_through}
 
     # fixup_name + FixupStyle
     fn_tab = _fixup_name_table(_find_func(itree, 'fixup_name', 'Instance'))
